@@ -282,7 +282,8 @@ class ClassTable:
             return self.by_qual[qual]
         if cls is object:
             return self.object_
-        bases = [self.from_native(b) for b in cls.__bases__ if b is not object] or [self.object_]
+        # builtin bases (str/int mixed into enums, ...) are value kinds of the engine, not object classes
+        bases = [self.from_native(b) for b in cls.__bases__ if b is not object and b.__module__ != "builtins"] or [self.object_]
         import enum as _enum
         is_enum = isinstance(cls, type) and issubclass(cls, _enum.Enum)
         ci = self._mk(cls.__name__, qual, bases, extern=cls, is_enum=is_enum)
